@@ -1990,6 +1990,12 @@ pub struct Session {
   shared: bool,
   /// flavour of the running arena
   cur_sync: bool,
+  /// another open description of the backing file that holds a shared advisory lock (`flock_hold`)
+  held: Option<std::fs::File>,
+}
+
+extern "C" {
+  fn flock(fd: i32, operation: i32) -> i32;
 }
 
 impl Session {
@@ -2004,6 +2010,19 @@ impl Session {
       Err(e) => format!("r={} {}", io_name(&e), file_sig(&path)),
     };
     Some(match t[0] {
+      // someone else (another open description of the same file) holds a shared advisory lock on the file, until
+      // `flock_release`: nothing the arena does to its own file may depend on that
+      "flock_hold" => {
+        argc(1)?;
+        use std::os::fd::AsRawFd;
+        self.held = std::fs::File::open(&path).ok().filter(|f| unsafe { flock(f.as_raw_fd(), 1) } == 0);
+        "r=ok".to_string()
+      }
+      "flock_release" => {
+        argc(1)?;
+        self.held = None;
+        "r=ok".to_string()
+      }
       "filehash" => {
         argc(1)?;
         format!("r=ok {}", sig())
@@ -2185,7 +2204,8 @@ impl CaseApi for Session {
   fn exec(&mut self, line: &str) -> String {
     let t: Vec<&str> = line.split(' ').collect();
     match t[0] {
-      "close" | "reopen" | "mutate_file" | "truncate_file" | "random_file" | "delete_file" | "filehash" | "crashcheck" | "close_last" => {
+      "close" | "reopen" | "mutate_file" | "truncate_file" | "random_file" | "delete_file" | "filehash" | "crashcheck" | "close_last"
+      | "flock_hold" | "flock_release" => {
         self.file_op(&t).unwrap_or_else(|| "bad-op".to_string())
       }
       op => match &mut self.case {
@@ -2244,7 +2264,7 @@ pub fn open_session(
   let session = case.map(|mut c| {
     let file = c.disown_file();
     let cur_sync = cfg.sync;
-    Box::new(Session { cfg, force_sync: ov.sync, file, case: Some(c), shared: true, cur_sync }) as Box<dyn CaseApi>
+    Box::new(Session { cfg, force_sync: ov.sync, file, case: Some(c), shared: true, cur_sync, held: None }) as Box<dyn CaseApi>
   });
   (session, ans)
 }
